@@ -48,7 +48,8 @@ def letters(tier):
     rules = ['cfer', 'cfer-batch', 'meek', 'meek-prf', 'mpls', 'qpq', 'scotland', 'warren', 'wigm', 'wigm-prf', 'wigm-prf-batch']
     variants = [{'arithmetic': 'fixed', 'precision': 2}, {'arithmetic': 'fixed', 'precision': 6, 'display': 3},
                 {'arithmetic': 'guarded', 'precision': 4, 'guard': 0}, {'arithmetic': 'guarded', 'precision': 3, 'guard': 2, 'display': 5},
-                {'arithmetic': 'guarded', 'precision': 5, 'guard': 3, 'display': 2}, {'arithmetic': 'rational', 'display': 5, 'omega': 3}]
+                {'arithmetic': 'guarded', 'precision': 5, 'guard': 3, 'display': 2}, {'arithmetic': 'rational', 'display': 5, 'omega': 3},
+                {'arithmetic': 'guarded', 'precision': 2, 'guard': 3, 'display': 5}]      # same total digits and display as 3+2, other split
     if tier == 'thorough':
         variants += [{'arithmetic': 'fixed', 'precision': 9, 'display': 0}, {'arithmetic': 'guarded', 'precision': 9, 'guard': 9, 'display': 12},
                      {'arithmetic': 'rational', 'display': 0, 'omega': 2}, {'arithmetic': 'guarded', 'precision': 2, 'guard': 0, 'display': 1}]
